@@ -393,7 +393,7 @@ class LazyIndexer:
                 # Turn boolean mask into integer indices (True means keep that index)
                 if dim_keep.dtype == bool and len(dim_keep) == dim_len:
                     dim_keep = np.nonzero(dim_keep)[0]
-                elif not np.all(dim_keep == np.unique(dim_keep)):
+                elif np.any(np.diff(dim_keep) <= 0):
                     raise TypeError('LazyIndexer cannot handle duplicate or unsorted advanced integer indices')
                 # Split indices into multiple contiguous segments (specified by first and one-past-last data indices)
                 jumps = np.nonzero(np.diff(dim_keep) > 1)[0]
